@@ -192,7 +192,7 @@ class GeomMultiUnification(om.ExplicitComponent):
             # Fill non zero Jacobian entries with ones
             data = np.ones_like(rows)
 
-            if shift_uni_mesh:
+            if shift_uni_mesh and len(sections) > 1:
                 # Update sparsity pattern for any possible uni_mesh shifting/translating(i.e span scalar changes)
                 if i_sec == 0:
                     # Concatenate the unified mesh jacobian row up to and including the current section
@@ -261,7 +261,9 @@ class GeomMultiUnification(om.ExplicitComponent):
             name = sections[i_sec]["name"]
             mesh_name = "{}_def_mesh".format(name)
 
-            if i_sec == 0:
+            if len(sections) == 1:
+                uni_mesh = inputs[mesh_name]
+            elif i_sec == 0:
                 uni_mesh = inputs[mesh_name][:, :-1, :]
             else:
                 if shift_uni_mesh:
